@@ -335,6 +335,25 @@ def _pred(case):
                 okc, r = c.lib("isrot/4x4", lambda: b.isrot(M.copy(), check=True))
                 if okc:
                     c.true("isrot/4x4", bool(r) is False, "isrot accepted a 4x4 matrix")
+    # an object of a related class (sub- or super-class) is not a value of this class: the constructor must raise,
+    # or (documented conversions) return an object holding only members of its own group
+    T3, T2 = member(case, 3, True), member(case, 2, True)
+    rel = {"SO3(SE3)": (lambda: L.SO3(L.SE3(T3.copy(), check=False)), (3, 3), 3, False),
+           "SO3([SE3])": (lambda: L.SO3([L.SE3(T3.copy(), check=False)]), (3, 3), 3, False),
+           "SO2(SE2)": (lambda: L.SO2(L.SE2(T2.copy(), check=False)), (2, 2), 2, False),
+           "SO2([SE2,SE2])": (lambda: L.SO2([L.SE2(T2.copy(), check=False), L.SE2(T2.copy(), check=False)]), (2, 2), 2, False),
+           "SE3(SO3)": (lambda: L.SE3(L.SO3(T3[:3, :3].copy(), check=False)), (4, 4), 3, True),
+           "SE2(SO2)": (lambda: L.SE2(L.SO2(T2[:2, :2].copy(), check=False)), (3, 3), 2, True),
+           "SE3(SE2)": (lambda: L.SE3(L.SE2(T2.copy(), check=False)), (4, 4), 3, True)}
+    for nm, (f, shape, dim, se) in rel.items():
+        try:
+            obj = f()
+        except Exception:  # noqa
+            continue
+        for a in obj.data:
+            okm = isinstance(a, np.ndarray) and a.shape == shape and group_distance(np.asarray(a, dtype=float), dim, se) <= 1e-6
+            if not c.true("related/" + nm, okm, "%s returned a %s holding %r" % (nm, type(obj).__name__, getattr(a, "shape", a))):
+                break
     # algebra predicates
     mag = case["mag"]
     P = np.array(case["pattern"]).reshape(4, 4)
